@@ -19,7 +19,7 @@ META = {
                    "cursor never skips a raw token: Open arms move over trivia only, the k-th Advance emits the pending "
                    "trivia and the k-th element of N, the final flush emits the remaining trivia. Hence the leaves are "
                    "exactly R in order and tokens.get(pos).unwrap() never fails. L1-L2: R tiles the input. Every premise "
-                   "is an obligation decided on the MIR; the proof level is claimed only when all are discharged.",
+                   "is an obligation decided on the MIR; the proof level is claimed only when all are discharged. L10 = C14 U12 (engine U: no token range or lexer advance is counted in characters or UTF-16 units). L11 = C02 P2 (a parser loop that stands still ends in the progress guard: no tree).",
     "not_decided": "logos' and rowan's own behaviour (trusted); inputs of 4 GiB or more (excluded by parse_module's assert).",
     "trusted_base": ["logos 0.12: tokens are non-empty, contiguous and cover the input; a bool callback returning false yields the #[error] token",
                      "rowan 0.15 GreenNodeBuilder concatenates token texts in insertion order",
